@@ -404,3 +404,69 @@ def while_break_drops_condition(function_proto):
 
 def returns_graph_input(function_proto):
     return any(o in set(function_proto.input) for o in function_proto.output)
+
+
+class OrtSessionCache:
+    """Eager mode builds one InferenceSession per operator call.  Inside the harness process identical models
+    (byte-equal) share one session: onnxruntime is an oracle here, not the code under test."""
+
+    def __init__(self, limit=20000):
+        self.cache = {}
+        self.limit = limit
+        self.hits = 0
+        self.misses = 0
+
+    def __enter__(self):
+        import onnxruntime as ort
+        self._ort = ort
+        self._orig = ort.InferenceSession
+        orig = self._orig
+        cache = self.cache
+        me = self
+
+        def factory(model, sess_options=None, providers=None, **kw):
+            if isinstance(model, (bytes, bytearray)) and sess_options is None:
+                key = bytes(model)
+                s = cache.get(key)
+                if s is None:
+                    me.misses += 1
+                    so = ort.SessionOptions()
+                    so.log_severity_level = 4
+                    s = orig(key, so, providers=list(providers) if providers else ["CPUExecutionProvider"], **kw)
+                    if len(cache) < me.limit:
+                        cache[key] = s
+                else:
+                    me.hits += 1
+                return s
+            return orig(model, sess_options, providers=providers, **kw)
+        ort.InferenceSession = factory
+        return self
+
+    def __exit__(self, *exc):
+        self._ort.InferenceSession = self._orig
+        self.cache.clear()
+        return False
+
+
+def nested_domain_not_imported(function_proto):
+    """A node inside a subgraph uses an operator domain that the FunctionProto does not import."""
+    imported = {("" if o.domain == "ai.onnx" else o.domain) for o in function_proto.opset_import}
+
+    def used(nodes, acc):
+        for n in nodes:
+            acc.add("" if n.domain == "ai.onnx" else n.domain)
+            for a in n.attribute:
+                if a.type == a.GRAPH:
+                    used(a.g.node, acc)
+                for g in a.graphs:
+                    used(g.node, acc)
+        return acc
+    return not used(function_proto.node, set()) <= imported
+
+
+def quiet_ort():
+    try:
+        import onnxruntime as ort
+        ort.set_default_logger_severity(4)
+    except Exception:  # noqa: BLE001
+        pass
